@@ -433,6 +433,12 @@ impl crate::world::Adversary for HandshakeForger {
             }
             Some(uflow::verif::Frame::HandshakeSynAckFrame(f)) if matches!(plan.endpoints[w.src].kind, EndpointKind::Server { .. }) => {
                 self.synack.insert(dst, f.nonce);
+                // a raw socket that is answered acknowledges: whatever made the server answer
+                // its (wrong-version, incompatible) request, the handshake would now complete
+                if matches!(plan.endpoints[dst].kind, EndpointKind::Raw) && self.count < self.max {
+                    self.count += 1;
+                    _out.push(TimedOp { t_us: _now_us + 20_000, rank: DELIVER_RANK_PUB, op: Op::Inject { to: w.src, from: dst, bytes: enc_hs_ack(f.nonce), twin: false } });
+                }
             }
             _ => (),
         }
@@ -510,19 +516,20 @@ pub struct NonceGuesser {
     seen: Vec<u32>,
     raws: Vec<usize>,
     fired: u32,
+    near: u32,
 }
 
 impl NonceGuesser {
     pub fn new(plan: &Plan) -> Self {
         let raws: Vec<usize> = plan.endpoints.iter().enumerate().filter(|(_, e)| matches!(e.kind, EndpointKind::Raw)).map(|(i, _)| i).collect();
-        Self { server: 0, seen: Vec::new(), raws, fired: 0 }
+        Self { server: 0, seen: Vec::new(), raws, fired: 0, near: 0 }
     }
 }
 
 impl crate::world::Adversary for NonceGuesser {
     fn on_wire(&mut self, w: &crate::world::WireRec, now_us: u64, plan: &Plan, out: &mut Vec<TimedOp>) {
         use uflow::verif::Serialize;
-        if w.src != self.server || self.raws.len() < 2 || self.fired >= 3 || now_us + 5_000_000 >= plan.end_us {
+        if w.src != self.server || self.raws.is_empty() || now_us + 5_000_000 >= plan.end_us {
             return;
         }
         let Some(dst) = w.dst else { return };
@@ -534,7 +541,16 @@ impl crate::world::Adversary for NonceGuesser {
                 return; // a repetition of the same SYN-ACK
             }
             self.seen.push(f.nonce);
-            if self.seen.len() >= 2 {
+            // near misses from the pending address itself: the right nonce in all but a few of
+            // its high bits (or low bits) is not the nonce
+            if self.near < 6 {
+                self.near += 1;
+                let k = 20 + (f.nonce.wrapping_mul(2654435761) >> 28) % 12;
+                for (i, wrong) in [f.nonce ^ (1 << k), f.nonce.wrapping_add(1 << 20), f.nonce ^ 0xFFF0_0000, f.nonce ^ 1].iter().enumerate() {
+                    out.push(TimedOp { t_us: now_us + 10_000 * (i as u64 + 1), rank: DELIVER_RANK_PUB, op: Op::Inject { to: self.server, from: dst, bytes: enc_hs_ack(*wrong), twin: false } });
+                }
+            }
+            if self.seen.len() >= 2 && self.raws.len() >= 2 && self.fired < 3 {
                 let n2 = self.seen[self.seen.len() - 1];
                 let d = n2.wrapping_sub(self.seen[self.seen.len() - 2]);
                 // the victim: another raw address (it never answers by itself in these runs)
@@ -708,7 +724,7 @@ pub fn world_b_limits(property: &str, scenario: &str, seed: u64, run: u64, thoro
     let max_total = 1 + (run / 12) % 12;
     let n_clients = r.range(1, 12) as usize;
     let mut scfg = EndpointCfg::default();
-    scfg.active_timeout_ms = *r.pick(&[2000u64, 5000, 20_000]);
+    scfg.active_timeout_ms = *r.pick(&[2000u64, 5000, 20_000, 60_000, 120_000]);
     let to = scfg.active_timeout_ms;
     let topo = topology(&mut plan, &mut r, n_clients + 1, 0, scfg, max_total, max_active, |_, _| {
         let mut c = EndpointCfg::default();
@@ -744,7 +760,7 @@ pub fn world_b_limits(property: &str, scenario: &str, seed: u64, run: u64, thoro
         let cad = Cadence { period_us: r.range(5_000, 50_000), jitter: 0.3, stall_p: 0.0, stall_max_us: 0, flush_after_step_p: 0.0 };
         // how the connection ends
         let t_end = (t_create + r.range(3_000_000, horizon / 3)).min(horizon);
-        let ending = r.below(12);
+        let ending = r.below(13);
         if ending != 7 {
             plan.params.insert(format!("created_ep{}", c), 1.0);
         }
@@ -758,6 +774,24 @@ pub fn world_b_limits(property: &str, scenario: &str, seed: u64, run: u64, thoro
                 plan.push(ts, r.u32() | 1, if r.chance(0.5) { Op::Disconnect { ep: 0, to: Some(c) } } else { Op::DisconnectNow { ep: 0, to: Some(c) } });
                 plan.push(tc, r.u32() | 1, if r.chance(0.5) { Op::Disconnect { ep: c, to: None } } else { Op::DisconnectNow { ep: c, to: None } });
                 horizon
+            }
+            12 => {
+                // the client disconnects, the server application drops the closed entry, and the
+                // same address comes back at once and stays beyond the old entry's 20 s
+                plan.push(t_end, r.u32() | 1, Op::DisconnectNow { ep: c, to: None });
+                let t_drop = t_end + r.range(2 * latency + 50_000, 2 * latency + 1_500_000);
+                plan.push(t_drop, r.u32() | 1, Op::ServerDrop { ep: 0, to: c });
+                let t_gone = t_drop + r.range(10_000, 500_000);
+                plan.push(t_gone, 1, Op::Destroy { ep: c });
+                let t_again = t_gone + r.range(100_000, 5_000_000);
+                cad.steps(&mut r, &mut plan, c, t_create, t_gone.min(horizon), 8000, false);
+                if t_again + 1_000_000 < horizon {
+                    plan.push(t_again, 1, Op::Create { ep: c });
+                    cad.steps(&mut r, &mut plan, c, t_again, horizon, 8000, false);
+                    last_end = horizon + 60_000_000;
+                }
+                last_end = last_end.max(t_gone);
+                continue;
             }
             11 => {
                 // the server application disconnects the client while its handshake is still in
@@ -1281,6 +1315,14 @@ pub fn world_b_silence(property: &str, scenario: &str, seed: u64, run: u64, thor
         };
         plan.push(t, 2, Op::Link { from, to, rule: b });
         plan.push(t + len, 2, Op::Link { from, to, rule: clean_rule(latency) });
+        // sometimes an application asks for a graceful disconnect, with reliable data still to be
+        // flushed, just as the silence begins: the silence timer keeps running
+        if r.chance(0.25) {
+            let who = if r.chance(0.6) { (c, None, 0usize) } else { (0usize, Some(c), c) };
+            let tag = 700_000 + (t / 1000) as u32;
+            plan.push(t + 1000, 0x4000_0000 + tag, Op::Send { ep: who.0, to: who.1, ch: 0, mode: MODE_RELIABLE, len: r.range(12, 3000) as u32, tag });
+            plan.push(t + 1001, 0x6000_0004, Op::Disconnect { ep: who.0, to: who.1 });
+        }
         t += len + r.range(1_000_000, 20_000_000);
         if t >= horizon {
             break;
